@@ -6,6 +6,7 @@ from pathlib import Path
 
 sys.path.insert(0, str(Path(__file__).resolve().parents[1] / 'sched'))
 from prop import SchedProp  # noqa: E402
+import gen as sgen  # noqa: E402
 
 
 def _flow(graph, icp, fcp, rh):
@@ -61,7 +62,9 @@ class C46(SchedProp):
             '--startcp after the initial point, driven through the real Scheduler by a seeded adaptive schedule; plus a fixed '
             'corpus of warm-start graphs; non-trivial = distinct (kind, warm/cold, ending, launch-count) class per distinct case')
     gen_opts = {'p_startcp': 0.7, 'p_abs': 0.25, 'abs_forms': ['^', '^+P1', 'icp+1'], 'p_intercycle': 0.5,
-                'p_sequential': 0.2, 'max_span': 4}
+                'p_sequential': 0.2, 'max_span': 5,
+                # initial points 8 and 98: the cycle points cross 9 -> 10 / 99 -> 100; offsets longer than one step
+                'icp_choices': [1, 3, 3, 8, 8, 98], 'offsets': ['-P1', '-P2', '-P2', '-P3']}
     n_quick = 128
     n_thorough = 1500
 
@@ -77,11 +80,57 @@ class C46(SchedProp):
             _case('c46-r1', '        R1 = """\n a\n"""\n        P1 = """\n a[^] => b\n b[-P1] => b\n"""', 2),
         ]
 
+    # every fourth case is a start-task start (--start-task=ID ..., 1-3 ids in different cycles) of the same kind of
+    # workflow; the model starts from `initTasks` (SchedStart.lean) instead of `load_from_point`
+    def gen(self, tier, rng):
+        import random
+        import re
+        # (start-task cases: '^' is the only absolute form - a future prerequisite offset such as foo[^+P1] makes
+        # add_to_pool recompute the runahead limit at load time, which is outside Sched v1)
+        st_opts = {k: v for k, v in self.gen_opts.items() if k != 'abs_forms'}
+        for k, case in enumerate(super().gen(tier, rng)):
+            if k % 4 == 3:
+                case = sgen.gen_case(case['seed'], case['kind'], st_opts)
+                r = random.Random(case['seed'] * 31 + 7)
+                icp = int(re.search(r'initial cycle point = (\d+)', case['flow']).group(1))
+                fcp = int(re.search(r'final cycle point = (\d+)', case['flow']).group(1))
+                names = sorted((case['policy'].get('outcomes') or {}).keys())
+                ids = []
+                for _ in range(r.randint(1, 3)):
+                    tid = f'{r.randint(icp, fcp)}/{r.choice(names)}'
+                    if tid not in ids:
+                        ids.append(tid)
+                case = dict(case, id=case['id'] + 'st', opts={'starttask': ids})
+            yield case
+
+    @staticmethod
+    def expected_start(inp):
+        """the start point the command line asks for (None: the initial point)"""
+        opts = inp.get('opts') or {}
+        if opts.get('starttask'):
+            return min(int(t.split('/')[0]) for t in opts['starttask'])
+        if opts.get('startcp'):
+            return int(opts['startcp'])
+        return None
+
+    def driver_input(self, inp, raw):
+        d = super().driver_input(inp, raw)
+        if 'crash' in d:
+            return d
+        want = self.expected_start(inp)
+        if want is not None:
+            d['expect_start'] = want
+        st = (inp.get('opts') or {}).get('starttask')
+        if st:
+            d['start_tasks'] = [[int(t.split('/')[0]), t.split('/')[1]] for t in st]
+        return d
+
     def classify(self, inp, obs):
         base = super().classify(inp, obs)
         if isinstance(obs, dict):
             return base
-        warm = 'warm' if (inp.get('opts') or {}).get('startcp') else 'cold'
+        o = inp.get('opts') or {}
+        warm = 'start-tasks' if o.get('starttask') else 'warm' if o.get('startcp') else 'cold'
         return f'{warm}/{base}'
 
 
